@@ -248,6 +248,9 @@ def gen_input(rng, decl, opts):
 
 
 def cases(rng, n):
+    # fixed witness of a recorded finding: class-level case_insensitive on a subclass, an inherited field with an upper-case alias
+    w = {"fields": [SHAPES["alias"]("a"), SHAPES["def"]("b")], "_split": 1, "_optbase": False}
+    yield w, "alias+def", O(addition="any", ci=True), "addition=any,ci"
     for _ in range(n):
         decl, shape = gen_decl(rng)
         if not legal(decl, None):
@@ -267,8 +270,10 @@ def collect_records(ck, rng, ncases, ninputs):
         except Exception as e:
             ck.count("not_judged: declaration refused (%s)" % type(e).__name__)
             continue
-        for _ in range(ninputs):
+        for ii in range(ninputs):
             x = gen_input(rng, decl, opts)
+            if k == 0 and ii == 0 and decl.get("_split") and opts["ci"]:
+                x = [("Al", 4)]          # the witness input of the fixed first case
             k += 1
             runs = {}
             for dfs in (False, True):
@@ -278,7 +283,7 @@ def collect_records(ck, rng, ncases, ninputs):
                     r["allkinds"] = observe(cls, decl, x, okw, collect=True)["allkinds"] or r["allkinds"]
                 runs["dfs" if dfs else "ffs"] = r
             records.append({"id": "c05-%d" % k, "d": {"fields": decl["fields"]}, "o": opts, "x": [{"k": key(a), "v": val(b)} for a, b in x],
-                            "ffs": runs["ffs"], "dfs": runs["dfs"], "shape": shape + ("/inherited" if decl.get("_split") else ""), "otag": otag, "input": repr(x)[:90]})
+                            "ffs": runs["ffs"], "dfs": runs["dfs"], "shape": shape + ("/inherited" if decl.get("_split") else ""), "split": decl.get("_split", 0), "optbase": bool(decl.get("_optbase")), "otag": otag, "input": repr(x)[:90]})
     return records
 
 
@@ -334,6 +339,20 @@ def universe(ck, pid):
     return res, byid
 
 
+def subclass_ci_case(rec):
+    """class-level case_insensitive set on a subclass; a field inherited from the base class has an alias with upper-case letters and the
+    input names it in another letter case"""
+    if not (rec.get("split") and not rec.get("optbase") and rec["o"]["ci"]):
+        return False
+    for f in rec["d"]["fields"][:rec["split"]]:
+        if f["ci"]:
+            continue
+        for k in f["keys"]:
+            if k["s"] != k["low"] and any(e["k"]["low"] == k["low"] and e["k"]["s"] != k["s"] for e in rec["x"]):
+                return True
+    return False
+
+
 def main():
     ck, r, byid = main_common("C05")
     ru, byu = universe(ck, "C05")
@@ -341,6 +360,8 @@ def main():
         for t in res.tagged("VIOL"):
             rec = ids[t[1]]
             key_ = "C05|%s|%s|%s|%s" % (t[2], t[3], features(rec), ",".join(sorted(set(rec["otag"].split(",")) - {"default"})) or "default")
+            if subclass_ci_case(rec):
+                key_ = "C05|subclass-case_insensitive-inherited-uppercase-alias"        # whatever clause it surfaces through
             ck.violation(key_, t[2], rec)
     finish_notes(ck, r, byid)
     finish_notes(ck, ru, byu)
